@@ -71,7 +71,9 @@ SpecStep(e) ==
       [] e.ev = "RebuildCopy" -> RebuildCopy(e.a.a, e.a.src)
       [] e.ev = "VerifyRebuild" -> VerifyRebuild(e.a.a, SeqSet(e.a.F))
       [] e.ev = "RemoveReplica" -> RemoveReplica(e.a.a)
-      [] e.ev = "SetMode"   -> IF e.a.mode = "ERR" THEN SetModeErr(e.a.a) ELSE FALSE
+      [] e.ev = "SetMode"   -> IF e.a.mode = "ERR" THEN SetModeErr(e.a.a)
+                               ELSE IF e.a.mode = "RW" THEN FALSE      \* (forcing RW: outside the model)
+                               ELSE SetModeInvalid(e.a.a, e.a.mode)
       [] e.ev = "MonitorRun" ->
             IF e.res = "none" /\ monNote[e.a.a] = 0
             THEN /\ Called("MonitorRun", [a |-> e.a.a]) /\ res' = "ok" /\ sig' = <<>> /\ served' = ""
